@@ -631,7 +631,7 @@ def inflated_length_is_result_length(prog, chk, rid):
         for x in walk(f.body):
             if x.get('kind') == 'CXXMemberCallExpr' and children(x):
                 callee = strip(children(x)[0])
-                if callee.get('name') in ('resize', 'insert', 'assign', 'append', 'push_back', 'emplace_back') and \
+                if callee.get('name') in ('resize', 'insert', 'assign', 'append', 'push_back', 'emplace_back', 'erase') and \
                         children(callee) and 'vector<' in (strip(children(callee)[0]).get('type') or ''):
                     sizing.append((x, any(from_counters(a) for a in children(x)[1:])))
         guarded = False
